@@ -652,10 +652,13 @@ func (h *bufHarness) sorter() {
 	// three or more 1024-slice chunks (a merged run is merged again) under comparison functions
 	// with many ties between slices of DIFFERENT length: whatever the seed, also in the quick tier
 	if r.Scale < 4 {
-		if h.sortCase(2100+int(r.Seed)%900, bufLesses[2], int(r.Seed)%3, 0) { // "last"
-			return
+		// four or five chunks: the run merged from the first two is itself a LEFT run at the top
+		for rep := 0; rep < 2; rep++ { // "last": ties between slices of different lengths
+			if h.sortCase(3100+(int(r.Seed)*7+rep*517)%1900, bufLesses[2], (int(r.Seed)+rep)%3, 4*(rep%2)) {
+				return
+			}
 		}
-		if h.sortCase(3073+int(r.Seed)%200, bufLesses[1+int(r.Seed)%2*2], (int(r.Seed)+1)%3, 3*(int(r.Seed)%2)) { // "len" / "false"
+		if h.sortCase(2100+int(r.Seed)%900, bufLesses[1+int(r.Seed)%2*2], (int(r.Seed)+1)%3, 3*(int(r.Seed)%2)) { // "len" / "false"
 			return
 		}
 	}
@@ -672,7 +675,7 @@ func (h *bufHarness) sorter() {
 }
 
 // sortCase builds a buffer with n slices and sorts it (whole, then sub-ranges with
-// other comparison functions).  gen: 0 tie-rich small alphabet, 1 distinct
+// other comparison functions).  gen: 4 four byte values only (all run maxima tie), 0 tie-rich small alphabet, 1 distinct
 // slices (no ties under "bytes"/"rev"), 2 fixed 4-byte keys, 3 many empty slices.
 // Returns true when a failure was reported.
 func (h *bufHarness) sortCase(n int, ls bufLess, kindIdx, gen int) bool {
@@ -703,6 +706,11 @@ func (h *bufHarness) sortCase(n int, ls bufLess, kindIdx, gen int) bool {
 			p = append(p, h.randBytes(r.Rng.Intn(5))...)
 			if r.Rng.Intn(2) == 0 { // same key bytes at the end too, different lengths
 				p = append(p, byte(perm[i]))
+			}
+		case 4: // four byte values only: under "last"/"len" every run maximum ties with the next run's
+			p = make([]byte, 1+r.Rng.Intn(6))
+			for j := range p {
+				p[j] = byte(r.Rng.Intn(4))
 			}
 		case 2:
 			p = make([]byte, 4)
